@@ -4,6 +4,7 @@ CONSTANTS
   PkForms = {"comp", "uncomp", "bad"}
   SigForms = {"full", "nov", "vflip", "rflip", "empty", "short", "long"}
   MaxOps = 6
+  MaxChurn = 1
   RecordHist = TRUE
   Depth = 6
 INVARIANT Emit
